@@ -662,6 +662,46 @@ func (c14) Run(ctx *Ctx, ci interface{}) (o Outcome) {
 				}
 			}
 			o.Add("pssm_columns_checked", int64(L))
+			// the other count-based normalisations, with pseudo-counts and log2 scale, from their documentation:
+			// none = count + pc; freq = (count + pc) / (n + |A| pc); unif = freq * |A|
+			for _, norm := range []int{align.PSSM_NORM_NONE, align.PSSM_NORM_FREQ, align.PSSM_NORM_UNIF} {
+				for _, lg := range []bool{false, true} {
+					for _, pc := range []float64{0, 0.5} {
+						k2 := fmt.Sprintf("Pssm(log=%v,pseudo=%v,norm=%d)", lg, pc, norm)
+						fl := s0.floats[k2]
+						if len(fl) != len(rows)*L {
+							continue
+						}
+						nA := float64(len(rows))
+						for ri := 0; ri < len(rows); ri++ {
+							for site := 0; site < L; site++ {
+								cnt := 0
+								for i := 0; i < n; i++ {
+									if a.Seqs[i][site] == rows[ri] {
+										cnt++
+									}
+								}
+								want := float64(cnt) + pc
+								switch norm {
+								case align.PSSM_NORM_FREQ:
+									want /= float64(n) + nA*pc
+								case align.PSSM_NORM_UNIF:
+									want = want / (float64(n) + nA*pc) * nA
+								}
+								if lg {
+									want = math.Log(want) / math.Log(2)
+								}
+								got := fl[ri*L+site]
+								if (math.IsInf(want, -1) && math.IsInf(got, -1)) || math.Abs(got-want) <= 1e-9*math.Max(1, math.Abs(want)) {
+									continue
+								}
+								o.Fail("definition:Pssm", "%s: %c at site %d is %v, %v by definition (count %d of %d rows)\n%s", k2, rows[ri], site, got, want, cnt, n, desc())
+								return
+							}
+						}
+					}
+				}
+			}
 		}
 	}
 	if !hasLower && !hasSpecial {
